@@ -132,3 +132,17 @@ MUTANTS = [
     (CT.GSM_UTILS, "time->t3 = time->fn % 51;", "time->t3 = time->fn % 52;", "gsm_fn2gsmtime_post.t3"),
     (CT.SYNC, "ADD_MODULO(time->fn, delta_fn, GSM_MAX_FN);", "ADD_MODULO(time->fn, delta_fn, GSM_MAX_FN + 1);", "l1s_time_inc_post.fn"),
 ]
+
+
+def FUZZ(seed, n=10):
+    """random inputs for the native replay (real code vs oracle); none may be `confirmed` on the unchanged tree"""
+    import random
+    rnd = random.Random(seed)
+    H = G.HYPERFRAME
+    for k in range(n):
+        fn = rnd.choice([0, 1, 25, 26, 50, 51, 1325, 1326, H - 1, H - 2, rnd.randrange(H), rnd.randrange(H)])
+        d = rnd.choice([1, 1, 2, 26, 51, 1325, 1326, H - 1, rnd.randrange(1, H)])
+        t1, t2, t3, tc = G.gsm_time(fn)
+        yield {"func": "l1s_time_inc", "fn": fn, "delta_fn": d}
+        yield {"func": "gsm_fn2gsmtime", "fn": fn}
+        yield {"func": "gsm_gsmtime2fn", "t1": t1, "t2": t2, "t3": t3, "f": fn}
